@@ -25,12 +25,13 @@ def observe_file(fp, paths, via_cli=False):
     import cooler
     import h5py
     if not os.path.exists(fp):
-        return {"exists": False, "paths": [{"p": p, "content": -1, "is_cooler": False, "raised": ""} for p in paths],
+        return {"exists": False, "paths": [{"p": p, "content": -1, "is_cooler": False, "raised": "", "asm": 0, "meta": 0} for p in paths],
                 "listing": [], "listing_raised": ""}
     out = []
     for p in paths:
         u = fp + "::" + pstr(p)
         content = -1
+        asm = meta = 0
         with h5py.File(fp, "r") as f:
             try:
                 g = f[pstr(p)]
@@ -45,6 +46,11 @@ def observe_file(fp, paths, via_cli=False):
                 px = cooler.Cooler(u).pixels()[:]
                 rows = [[int(a), int(b), int(c)] for a, b, c in zip(px["bin1_id"], px["bin2_id"], px["count"])]
                 content = rows[0][2] if len(rows) == 1 and rows[0][:2] == [0, 1] else -2
+                info = cooler.Cooler(u).info
+                a = str(info.get("genome-assembly", "unknown"))
+                asm = 0 if a == "unknown" else (int(a[3:]) if a.startswith("asm") and a[3:].isdigit() else -1)
+                md = info.get("metadata", {})
+                meta = 0 if md == {} else (int(md["content"]) if isinstance(md, dict) and set(md) == {"content"} else -1)
             except Exception:
                 content = -3
         raised = ""
@@ -52,7 +58,7 @@ def observe_file(fp, paths, via_cli=False):
             ic = bool(cooler.fileops.is_cooler(u))
         except Exception as ex:
             ic, raised = False, type(ex).__name__
-        out.append({"p": p, "content": content, "is_cooler": ic, "raised": raised})
+        out.append({"p": p, "content": content, "is_cooler": ic, "raised": raised, "asm": asm, "meta": meta})
     lraised = ""
     try:
         if via_cli:
@@ -83,7 +89,8 @@ def st_history(case, ctx):
             if op["op"] == "create":
                 cooler.create_cooler(uri(d, op["f"], op["p"], op.get("noslash", False)) if op["p"] or op.get("explicit_root")
                                      else os.path.join(d, op["f"] + ".cool"),
-                                     gen.bins_frame(TABLE), gen.pixels_frame([[0, 1, op["c"]]]), ordered=True, mode=op["mode"])
+                                     gen.bins_frame(TABLE), gen.pixels_frame([[0, 1, op["c"]]]), ordered=True, mode=op["mode"],
+                                     **({"assembly": f"asm{op['c']}", "metadata": {"content": op["c"]}} if op["c"] % 2 else {}))
             else:
                 s = uri(d, op["sf"], op["sp"], op.get("noslash", False))
                 t = uri(d, op["df"], op["dp"], op.get("noslash", False))
